@@ -176,7 +176,7 @@ theorem lookupKV_none_of_notin : ∀ (kvs : List (String × PyVal)) (k : String)
     simp [this]
     exact lookupKV_none_of_notin rest k (fun kv hkv => h kv (by simp [hkv]))
 
-theorem field_agree {S : Schema} {o : Oracle} {Leaf : String → Value → Prop} {n : Nat} (ih : LitVarAt S o Leaf n)
+theorem litField_agree {S : Schema} {o : Oracle} {Leaf : String → Value → Prop} {n : Nat} (ih : LitVarAt S o Leaf n)
     (fields : List ArgDef) (fs : List (String × Value)) (kvs : List (String × PyVal))
     (hu : (fs.map (·.1)).Nodup) (hj : jsonOfFields o fs = some kvs)
     (hf : ∀ kv ∈ fs, ∀ fd ∈ fields, fd.name = kv.1 → NatLit S Leaf fd.type kv.2)
@@ -219,7 +219,7 @@ theorem field_agree {S : Schema} {o : Oracle} {Leaf : String → Value → Prop}
       have := ih false fd.type vn jv v0 (hf (fd.name, vn) hmem fd hfd rfl) hjv hv
       simp [this]
 
-theorem fields_agree {S : Schema} {o : Oracle} {Leaf : String → Value → Prop} {n : Nat} (ih : LitVarAt S o Leaf n)
+theorem litFields_agree {S : Schema} {o : Oracle} {Leaf : String → Value → Prop} {n : Nat} (ih : LitVarAt S o Leaf n)
     (fields : List ArgDef) (fs : List (String × Value)) (kvs : List (String × PyVal))
     (hu : (fs.map (·.1)).Nodup) (hj : jsonOfFields o fs = some kvs)
     (hf : ∀ kv ∈ fs, ∀ fd ∈ fields, fd.name = kv.1 → NatLit S Leaf fd.type kv.2) :
@@ -237,8 +237,8 @@ theorem fields_agree {S : Schema} {o : Oracle} {Leaf : String → Value → Prop
       | none => simp [h0, h1, allSome] at h
       | some rs0 =>
         simp [h0, h1, allSome] at h; subst h
-        have a0 := field_agree ih fields fs kvs hu hj hf fd (hsub fd (by simp)) r0 h0
-        have a1 := fields_agree ih fields fs kvs hu hj hf fds rs0 (fun x hx => hsub x (by simp [hx])) h1
+        have a0 := litField_agree ih fields fs kvs hu hj hf fd (hsub fd (by simp)) r0 h0
+        have a1 := litFields_agree ih fields fs kvs hu hj hf fds rs0 (fun x hx => hsub x (by simp [hx])) h1
         simp only [List.map_cons, List.filterMap_cons, a0]
         cases r0 <;> simp [a1]
 
@@ -338,7 +338,7 @@ theorem lit_var_all (S : Schema) (o : Oracle) (Leaf : String → Value → Prop)
       obtain ⟨kvs, hkvs, rfl⟩ := hj
       simp only [coerceLiteral, litWrapped, litNamed, hs, Option.map_eq_some_iff] at h
       obtain ⟨rs, hrs, rfl⟩ := h
-      have hag := fields_agree ih fields fs kvs hu hkvs hf fields rs (fun _ h => h) hrs
+      have hag := litFields_agree ih fields fs kvs hu hkvs hf fields rs (fun _ h => h) hrs
       have hkeys := jsonOfFields_keys o fs kvs hkvs
       have hunk : (kvs.filterMap fun kv => if fields.any (fun fd => fd.name == kv.1) then none else some "unknown-field") = [] := by
         rw [List.filterMap_eq_nil_iff]
